@@ -54,6 +54,12 @@ class Contract:
     # omits them, a fresh object of the declared sort is used and the listed global-invariant clauses are
     # assumed for it (they hold initially and are preserved by the only function that can reach the object)
     shared_defaults: Dict[str, List[str]] = field(default_factory=dict)
+    # monitor contract for `with self.<lock>:` regions (DESIGN 4.9):
+    #   {"lock": "_lock", "cls": "Progress", "protects": [fields of self], "invariant": [clauses],
+    #    "ghost_monotone": [ghost names that other threads may only increase]}
+    monitor: Dict[str, Any] = field(default_factory=dict)
+    # ghost globals updated by a call: name -> expression over params/result (e.g. a clock reading)
+    ghost_update: Dict[str, str] = field(default_factory=dict)
     native_gen: Dict[str, Any] = field(default_factory=dict)  # param -> callable(rng) -> list of real values
     native: bool = True  # evaluate the clauses natively on the real function (bounded cross-check)
     native_budget: int = 3000
